@@ -1,0 +1,18 @@
+//go:build verif
+
+// Contracts for package abi, checked by /verif (govc). Comment-only; compiled only under -tags verif.
+package abi
+
+//@ func EFIGUID.Put
+//@   sweep[C18]
+//@   ensures[C18] len(data) < 16 <==> err != nil
+//@   ensures[C18] err == nil ==> le32(data, 0) == g.Data1 && le16(data, 4) == g.Data2 && le16(data, 6) == g.Data3
+//@   ensures[C18] err == nil ==> forall(i, 0 <= i && i < 8 ==> bytesAt(data, 8+i) == g.Data4[i])
+//@   ensures[C18] forall(i, 16 <= i && i < len(data) ==> bytesAt(data, i) == old(bytesAt(data, i)))
+//@   ensures[C18] err != nil ==> forall(i, 0 <= i && i < len(data) ==> bytesAt(data, i) == old(bytesAt(data, i)))
+
+//@ func parseEFIGUID
+//@   sweep[C18]
+//@   ensures[C18] len(data) == 16 <==> err == nil
+//@   ensures[C18] err == nil ==> result.Data1 == le32(data, 0) && result.Data2 == le16(data, 4) && result.Data3 == le16(data, 6)
+//@   ensures[C18] err == nil ==> forall(i, 0 <= i && i < 8 ==> result.Data4[i] == bytesAt(data, 8+i))
